@@ -1033,7 +1033,8 @@ class Evaluator:
         they are read in every iteration and are not used after the loop are not loop state."""
         import re as _re
         stored = [n for n in self._stored_names(body) if n in env and n not in loop_names and not n.startswith("$") and not n.startswith("@")]
-        stored = [n for n in stored if not (self._dead_on_entry(body, n) and not self._live_after(ctx, body, n))]
+        test_reads = {n.id for n in ast.walk(test) if isinstance(n, ast.Name)} if test is not None else set()
+        stored = [n for n in stored if n in test_reads or not (self._dead_on_entry(body, n) and not self._live_after(ctx, body, n))]
         depth = self._loop_depth
 
         def entry_env(ident):
@@ -1102,7 +1103,11 @@ class Evaluator:
                 if type(env[nm]) is Tup or self._is_carried_list(env[nm]):
                     self._carried_lists.add(nv.key())
                 e2[nm] = nv
-        if self.effects_mode and ctx.fx:
+        # a loop that only updates its own carried variables has no observable effect of its own (its results flow on
+        # through the afterloop values): recording it would make `loop inline` differ from `loop in a pure helper`
+        observable = any(any(not (isinstance(x, tuple) and x and x[0] == "local") for x in fx) or (rr is not None and "<break>" not in rr)
+                         for _, fx, rr in rows)
+        if self.effects_mode and ctx.fx and observable:
             self._fx(e2, ("foreach", src, block))
         return [(conds, e2, None)]
 
@@ -2180,9 +2185,16 @@ def _simplify_conds(conds: frozenset):
         e = _eq_const(c)
         if e and e[0]:
             eqs[e[1]] = e[2]
+    num_eqs = [c.x for c in conds if c.op == "==" and isinstance(c.x, Rat) and not c.x.is_const()]
     for c in conds:
         if c.op == "<=" and isinstance(c.x, Rat) and Cond("<", c.x) in conds:
             out.discard(c)
+        if c.op == "!=" and isinstance(c.x, Rat):
+            # v == A implies v != B
+            for q in num_eqs:
+                if any(d.is_const() and d.const_value() != 0 for d in (q - c.x, q + c.x)):
+                    out.discard(c)
+                    break
         e = _eq_const(c)
         if e and not e[0] and e[1] in eqs and eqs[e[1]] != e[2]:
             out.discard(c)
@@ -2198,6 +2210,13 @@ def _contradict(conds: frozenset) -> bool:
         if e and e[0]:
             if eqs.setdefault(e[1], e[2]) != e[2]:
                 return True
+    # two equalities that pin the same expression to different constants (enum members folded to numbers)
+    num_eqs = [c.x for c in conds if c.op == "==" and isinstance(c.x, Rat)]
+    for i in range(len(num_eqs)):
+        for j in range(i + 1, len(num_eqs)):
+            for d in (num_eqs[i] - num_eqs[j], num_eqs[i] + num_eqs[j]):
+                if d.is_const() and d.const_value() != 0 and not num_eqs[i].is_const():
+                    return True
     for c in conds:
         try:
             if c.negate() in conds:
